@@ -994,10 +994,15 @@ def simp_cmp_int(expr_simp, expr):
         # ({X, 0} == int) => X == int[:]
         src = expr.args[0].args[0]
         int_val = int(expr.args[1])
+        if int_val >= (1 << src.size):
+            # The upper part of the compose is null: always false
+            return ExprInt(0, expr.size)
         new_int = ExprInt(int_val, src.size)
         expr = expr_simp(
             ExprOp(TOK_EQUAL, src, new_int)
         )
+        if not expr.is_op(TOK_EQUAL):
+            return expr
     elif not expr.is_op(TOK_EQUAL):
         return expr
     assert len(expr.args) == 2
